@@ -16,7 +16,7 @@ EXTENDS AtsMC
 CONSTANTS Tier, Family
 
 P(k) == Dec(k * SCALE, "plain")
-R(n) == Dec(n, "plain")
+R(n) == Dec(n * 100, "plain")          \* a rate given in units of 0.0001
 
 BF == FeeInfo("bidfee1", R(2500))
 Cfg == [set |-> TRUE, name |-> "ats", bind |-> "", base |-> "base", convs |-> <<"cv1">>, quotes |-> <<"q1">>,
